@@ -51,13 +51,17 @@ def endPos (e : Inline Bytes) (s : Src) (q : Nat) : Nat :=
 mutual
 /-- nesting budget the parser needs for `inlineBytes e` -/
 def fuelInline : Inline Bytes → Nat
-  | .fn _ pos named => fuelArgs pos + named.length + 5
-  | .term _ _ (some (pos, named)) => fuelArgs pos + named.length + 5
+  | .fn _ pos named => fuelArgs pos + fuelNamed named + 5
+  | .term _ _ (some (pos, named)) => fuelArgs pos + fuelNamed named + 5
   | .placeable e => fuelInner e + 3
   | _ => 2
 def fuelArgs : List (Inline Bytes) → Nat
   | [] => 0
   | x :: xs => fuelInline x + fuelArgs xs + 1
+/-- the values of named arguments are inline expressions themselves (literals, message references, calls) -/
+def fuelNamed : List (Bytes × Inline Bytes) → Nat
+  | [] => 0
+  | (_, v) :: xs => fuelInline v + fuelNamed xs + 1
 def fuelInner : Expr Bytes → Nat
   | .inline i => fuelInline i
   | .select _ _ => 0
@@ -176,102 +180,15 @@ theorem nextPos_comma (s : Src) (q : Nat) (b : UInt8) (h0 : s[q]? = some 44) (h1
   rw [skipBlank_space s (q + 1) h1]
   exact skipBlank_at_byte s (q + 2) b h2 hb.1 hb.2.1 hb.2.2
 
-theorem getCallArgsLoop_named {s : Src} (hs : AsciiThenBoundary s) (named : List (Bytes × Inline Bytes))
-    (hv : validNamed named = true) (hnd : (named.map Prod.fst).Nodup) :
-    ∀ (p fuel : Nat) (pos0 : List (Inline Span)) (named0 : List (Span × Inline Span)),
-      At s p (namedTail named) → named.length + 3 ≤ fuel →
-      (∀ n ∈ named.map Prod.fst, n ∉ accNames s named0) →
-      ∃ named', getCallArgsLoop s fuel pos0 named0 p =
-          .ok (pos0, named0 ++ named') (p + (namedTail named).length - 1) ∧
-        mapNamed (spanBytes s) named' = named := by
-  induction named with
-  | nil =>
-    intro p fuel pos0 named0 h hf _
-    obtain ⟨k, rfl⟩ : ∃ k, fuel = k + 1 := ⟨fuel - 1, by omega⟩
-    simp only [namedTail, at_cons] at h
-    refine ⟨[], ?_, rfl⟩
-    rw [getCallArgsLoop]
-    simp only [get_lt h.1, if_true, isCurrentByte, h.1, beq_self_eq_true, namedTail, List.append_nil,
-      List.length_cons, List.length_nil]
-    rfl
-  | cons x xs ih =>
-    obtain ⟨n, v⟩ := x
-    intro p fuel pos0 named0 h hf hdis
-    obtain ⟨k, rfl⟩ : ∃ k, fuel = k + 3 := ⟨fuel - 3, by simp at hf; omega⟩
-    simp only [validNamed, Bool.and_eq_true] at hv
-    obtain ⟨⟨⟨hn, hl⟩, hvv⟩, hxs⟩ := hv
-    simp only [List.map_cons, List.nodup_cons] at hnd
-    rw [namedTail, at_append, at_append, at_append, at_append] at h
-    obtain ⟨⟨⟨⟨h1, h2⟩, h3⟩, h4⟩, h5⟩ := h
-    simp only [at_cons, List.length_append, List.length_cons, List.length_nil] at h2 h3 h4 h5
-    -- first byte: a letter
-    obtain ⟨b, rest, hnb, hb, _⟩ := validIdent_head hn
-    have hp0 : s[p]? = some b := by rw [hnb, at_cons] at h1; exact h1.1
-    have hb41 : b ≠ 41 := ((notBlank_iff b).mp (alpha_notBlank b hb)).2.2.2
-    -- the name
-    obtain ⟨hfol, hsb⟩ := follow_of_byte 58 h2.1 (by decide)
-    have e1 := getInline_msg_none hs n hn p k h1 hfol.ident hfol.2
-    rw [hsb] at e1
-    -- the value
-    obtain ⟨vb, hvb, hvnb⟩ := inlineBytes_head v hvv
-    have hv0 := at_head h3 hvb
-    obtain ⟨nb1, nb2, nb3, _⟩ := (notBlank_iff vb).mp hvnb
-    have hsb2 : skipBlank s (p + n.length + 1) = p + n.length + 2 := by
-      rw [skipBlank_space s _ h2.2.1]
-      exact skipBlank_at_byte s _ vb (by simpa [Nat.add_assoc] using hv0) nb1 nb2 nb3
-    have e3 : p + (n.length + (0 + 1 + 1)) = p + n.length + 2 := by omega
-    have e4 : p + (n.length + (0 + 1 + 1) + (inlineBytes v).length) = p + n.length + 2 + (inlineBytes v).length := by
-      omega
-    rw [e3] at h3 hv0
-    rw [e4] at h4
-    -- where the loop restarts
-    obtain ⟨q', hnext, hat', hstopv, hlen⟩ : ∃ q',
-        skipBlank s (takeByteIf s (skipBlank s (p + n.length + 2 + (inlineBytes v).length)) 44).fst = q' ∧
-        At s q' (namedTail xs) ∧ StopAt s (p + n.length + 2 + (inlineBytes v).length) numStop ∧
-        q' + (namedTail xs).length = p + (namedTail ((n, v) :: xs)).length := by
-      cases xs with
-      | nil =>
-        simp only [List.isEmpty_nil, if_true, List.length_nil, Nat.add_zero, namedTail, at_cons] at h5
-        rw [e4] at h5
-        refine ⟨_, nextPos_close s _ h5.1, by simp [namedTail, at_cons, h5.1],
-          (follow_of_byte 41 h5.1 (by decide)).1.num, ?_⟩
-        simp [namedTail]; omega
-      | cons y ys =>
-        simp only [List.isEmpty_cons, Bool.false_eq_true, if_false, at_cons, List.length_cons, List.length_nil] at h4 h5
-        obtain ⟨yb, hyb, y1, y2, y3, _⟩ := namedTail_head (y :: ys) hxs
-        have e5 : p + (n.length + (0 + 1 + 1) + (inlineBytes v).length + (0 + 1 + 1)) =
-            p + n.length + 2 + (inlineBytes v).length + 2 := by omega
-        rw [e5] at h5
-        refine ⟨_, nextPos_comma s _ yb h4.1 h4.2.1 (at_head h5 hyb) ⟨y1, y2, y3⟩, h5,
-          (follow_of_byte 44 h4.1 (by decide)).1.num, ?_⟩
-        have : namedTail ((n, v) :: y :: ys) = n ++ [58, 32] ++ inlineBytes v ++ [44, 32] ++ namedTail (y :: ys) := by
-          rw [namedTail]; rfl
-        rw [this]
-        simp; omega
-    obtain ⟨v', ev, rv⟩ := getInline_literal hs v hl hvv (p + n.length + 2) (k + 1) true h3 hstopv
-    have hdup : (named0.any fun na => spanBytes s na.fst == spanBytes s ⟨p, p + n.length⟩) = false := by
-      rw [at_spanBytes h1, List.any_eq_false]
-      intro na hna heq
-      apply hdis n (by simp)
-      simp only [accNames, List.mem_map]
-      exact ⟨na, hna, by simpa using heq⟩
-    obtain ⟨named', eih, rih⟩ := ih hxs hnd.2 q' (k + 2) pos0 (named0 ++ [(⟨p, p + n.length⟩, v')]) hat'
-      (by simp at hf; omega) (by
-        intro m hm
-        simp only [accNames, List.map_append, List.map_cons, List.map_nil, List.mem_append, List.mem_singleton,
-          at_spanBytes h1, not_or]
-        refine ⟨hdis m (by simp [hm]), ?_⟩
-        intro hmn; subst hmn
-        exact hnd.1 (by simpa using hm))
-    refine ⟨(⟨p, p + n.length⟩, v') :: named', ?_, ?_⟩
-    · rw [getCallArgsLoop]
-      have hc41 : isCurrentByte s p 41 = false := by simp [isCurrentByte, hp0, hb41]
-      have hc58 : isCurrentByte s (p + n.length) 58 = true := by simp [isCurrentByte, h2.1]
-      simp only [get_lt hp0, if_true, hc41, Bool.false_eq_true, if_false, e1, hsb, hc58, hdup, hsb2, ev, hnext, eih]
-      simp only [List.append_assoc, List.singleton_append]
-      congr 1
-      omega
-    · simp [mapNamed, rv, rih, at_spanBytes h1]
+/-- what `getCallArgsLoop_named` proves about the named arguments (passed to `getCallArgsLoop_pos` as a
+hypothesis, so that the mutual induction stays structural) -/
+def NamedLoopOK (s : Src) (named : List (Bytes × Inline Bytes)) : Prop :=
+  ∀ (p fuel : Nat) (pos0 : List (Inline Span)) (named0 : List (Span × Inline Span)),
+    At s p (namedTail named) → fuelNamed named + 3 ≤ fuel →
+    (∀ n ∈ named.map Prod.fst, n ∉ accNames s named0) →
+    ∃ named', getCallArgsLoop s fuel pos0 named0 p =
+        .ok (pos0, named0 ++ named') (p + (namedTail named).length - 1) ∧
+      mapNamed (spanBytes s) named' = named
 
 /-! ## positional arguments and the inline expression itself -/
 
@@ -432,14 +349,15 @@ theorem getInline_bytes {s : Src} (hs : AsciiThenBoundary s) (e : Inline Bytes) 
       obtain ⟨⟨⟨⟨hid, hattr⟩, hpos⟩, hnamed⟩, hnd⟩ := hv
       have hnd' : (named.map Prod.fst).Nodup := by simpa [namesNodup] using hnd
       obtain ⟨m, rfl⟩ : ∃ m, fuel = m + 2 := ⟨fuel - 2, by simp [fuelInline] at hfuel; omega⟩
-      have hm : fuelArgs pos + named.length + 3 ≤ m := by simp [fuelInline] at hfuel; omega
+      have hm : fuelArgs pos + fuelNamed named + 3 ≤ m := by simp [fuelInline] at hfuel; omega
       simp only [inlineBytes] at h hf ⊢
       rw [at_cons, at_append, at_append, at_cons] at h
       obtain ⟨h0, ⟨h1, h2⟩, h40, hT⟩ := h
       simp only [List.length_append] at h40 hT
       rw [← Nat.add_assoc] at h40 hT
       obtain ⟨xs', named', hloop, hmx, hmn⟩ :=
-        getCallArgsLoop_pos hs pos hpos named hnamed hnd' _ m [] hT hm
+        getCallArgsLoop_pos hs pos hpos named hnamed
+          (fun p fuel pos0 named0 => getCallArgsLoop_named hs named hnamed hnd' p fuel pos0 named0) _ m [] hT hm
       have h41 := at_last_paren hT (posTail_last pos named)
       have hTlen : 1 ≤ (posTail pos named.isEmpty (namedTail named)).length := by
         obtain ⟨pre, hpre⟩ := posTail_last pos named; rw [hpre]; simp
@@ -481,12 +399,14 @@ theorem getInline_bytes {s : Src} (hs : AsciiThenBoundary s) (e : Inline Bytes) 
     obtain ⟨⟨⟨⟨hid, hcallee⟩, hpos⟩, hnamed⟩, hnd⟩ := hv
     have hnd' : (named.map Prod.fst).Nodup := by simpa [namesNodup] using hnd
     obtain ⟨m, rfl⟩ : ∃ m, fuel = m + 2 := ⟨fuel - 2, by simp [fuelInline] at hfuel; omega⟩
-    have hm : fuelArgs pos + named.length + 3 ≤ m := by simp [fuelInline] at hfuel; omega
+    have hm : fuelArgs pos + fuelNamed named + 3 ≤ m := by simp [fuelInline] at hfuel; omega
     simp only [inlineBytes] at h hf ⊢
     rw [at_append, at_cons] at h
     obtain ⟨h1, h40, hT⟩ := h
     obtain ⟨xs', named', hloop, hmx, hmn⟩ :=
-      getCallArgsLoop_pos hs pos hpos named hnamed hnd' (p + id.length + 1) m [] hT hm
+      getCallArgsLoop_pos hs pos hpos named hnamed
+        (fun p fuel pos0 named0 => getCallArgsLoop_named hs named hnamed hnd' p fuel pos0 named0)
+        (p + id.length + 1) m [] hT hm
     have h41 := at_last_paren hT (posTail_last pos named)
     have hTlen : 1 ≤ (posTail pos named.isEmpty (namedTail named)).length := by
       obtain ⟨pre, hpre⟩ := posTail_last pos named; rw [hpre]; simp
@@ -531,23 +451,23 @@ theorem getInline_bytes {s : Src} (hs : AsciiThenBoundary s) (e : Inline Bytes) 
       omega
 
 theorem getCallArgsLoop_pos {s : Src} (hs : AsciiThenBoundary s) (xs : List (Inline Bytes)) (hv : validInl xs = true)
-    (named : List (Bytes × Inline Bytes)) (hvn : validNamed named = true) (hnd : (named.map Prod.fst).Nodup)
+    (named : List (Bytes × Inline Bytes)) (hvn : validNamed named = true) (hnl : NamedLoopOK s named)
     (p fuel : Nat) (pos0 : List (Inline Span)) (h : At s p (posTail xs named.isEmpty (namedTail named)))
-    (hfuel : fuelArgs xs + named.length + 3 ≤ fuel) :
+    (hfuel : fuelArgs xs + fuelNamed named + 3 ≤ fuel) :
     ∃ xs' named', getCallArgsLoop s fuel pos0 [] p =
         .ok (pos0 ++ xs', named') (p + (posTail xs named.isEmpty (namedTail named)).length - 1) ∧
       mapInl (spanBytes s) xs' = xs ∧ mapNamed (spanBytes s) named' = named := by
   cases xs with
   | nil =>
     simp only [posTail] at h ⊢
-    obtain ⟨named', hl, hm⟩ := getCallArgsLoop_named hs named hvn hnd p fuel pos0 [] h
+    obtain ⟨named', hl, hm⟩ := hnl p fuel pos0 [] h
       (by simp [fuelArgs] at hfuel; omega) (by simp [accNames])
     exact ⟨[], named', by simpa using hl, rfl, hm⟩
   | cons x xs =>
     simp only [validInl, Bool.and_eq_true] at hv
     obtain ⟨k, rfl⟩ : ∃ k, fuel = k + 1 := ⟨fuel - 1, by omega⟩
     have hk1 : fuelInline x ≤ k := by simp [fuelArgs] at hfuel; omega
-    have hk2 : fuelArgs xs + named.length + 3 ≤ k := by simp [fuelArgs] at hfuel; omega
+    have hk2 : fuelArgs xs + fuelNamed named + 3 ≤ k := by simp [fuelArgs] at hfuel; omega
     have hpt : posTail (x :: xs) named.isEmpty (namedTail named) =
         inlineBytes x ++ (if xs.isEmpty && named.isEmpty then [] else [44, 32]) ++
           posTail xs named.isEmpty (namedTail named) := by rw [posTail]
@@ -582,7 +502,7 @@ theorem getCallArgsLoop_pos {s : Src} (hs : AsciiThenBoundary s) (xs : List (Inl
     obtain ⟨e', he, hme⟩ := getInline_bytes hs x hv.1 p k h1 hfol hk1
     rw [endPos_stay x s _ hsb] at he
     obtain ⟨xs', named', hloop, hmx, hmn⟩ :=
-      getCallArgsLoop_pos hs xs hv.2 named hvn hnd q' k (pos0 ++ [e']) hat' hk2
+      getCallArgsLoop_pos hs xs hv.2 named hvn hnl q' k (pos0 ++ [e']) hat' hk2
     obtain ⟨b, hb, hnb⟩ := inlineBytes_head x hv.1
     have hb0 := at_head h1 hb
     have h41 : isCurrentByte s p 41 = false := by
@@ -593,6 +513,134 @@ theorem getCallArgsLoop_pos {s : Src} (hs : AsciiThenBoundary s) (xs : List (Inl
     simp only [List.append_assoc, List.singleton_append]
     congr 1
     omega
+
+theorem getCallArgsLoop_named {s : Src} (hs : AsciiThenBoundary s) (named : List (Bytes × Inline Bytes))
+    (hv : validNamed named = true) (hnd : (named.map Prod.fst).Nodup)
+    (p fuel : Nat) (pos0 : List (Inline Span)) (named0 : List (Span × Inline Span))
+    (h : At s p (namedTail named)) (hf : fuelNamed named + 3 ≤ fuel)
+    (hdis : ∀ n ∈ named.map Prod.fst, n ∉ accNames s named0) :
+    ∃ named', getCallArgsLoop s fuel pos0 named0 p =
+        .ok (pos0, named0 ++ named') (p + (namedTail named).length - 1) ∧
+      mapNamed (spanBytes s) named' = named := by
+  cases named with
+  | nil =>
+    obtain ⟨k, rfl⟩ : ∃ k, fuel = k + 1 := ⟨fuel - 1, by omega⟩
+    simp only [namedTail, at_cons] at h
+    refine ⟨[], ?_, rfl⟩
+    rw [getCallArgsLoop]
+    simp only [get_lt h.1, if_true, isCurrentByte, h.1, beq_self_eq_true, namedTail, List.append_nil,
+      List.length_cons, List.length_nil]
+    rfl
+  | cons x xs =>
+    obtain ⟨n, v⟩ := x
+    have hfv := fuelInline_ge v
+    obtain ⟨k, rfl⟩ : ∃ k, fuel = k + 3 := ⟨fuel - 3, by simp only [fuelNamed] at hf; omega⟩
+    have hkv : fuelInline v ≤ k + 2 := by simp only [fuelNamed] at hf; omega
+    have hkxs : fuelNamed xs + 3 ≤ k + 2 := by simp only [fuelNamed] at hf; omega
+    simp only [validNamed, Bool.and_eq_true] at hv
+    obtain ⟨⟨⟨hn, hl⟩, hvv⟩, hxs⟩ := hv
+    simp only [List.map_cons, List.nodup_cons] at hnd
+    rw [namedTail, at_append, at_append, at_append, at_append] at h
+    obtain ⟨⟨⟨⟨h1, h2⟩, h3⟩, h4⟩, h5⟩ := h
+    simp only [at_cons, List.length_append, List.length_cons, List.length_nil] at h2 h3 h4 h5
+    -- first byte: a letter
+    obtain ⟨b, rest, hnb, hb, _⟩ := validIdent_head hn
+    have hp0 : s[p]? = some b := by rw [hnb, at_cons] at h1; exact h1.1
+    have hb41 : b ≠ 41 := ((notBlank_iff b).mp (alpha_notBlank b hb)).2.2.2
+    -- the name
+    obtain ⟨hfol, hsb⟩ := follow_of_byte 58 h2.1 (by decide)
+    have e1 := getInline_msg_none hs n hn p k h1 hfol.ident hfol.2
+    rw [hsb] at e1
+    -- the value
+    obtain ⟨vb, hvb, hvnb⟩ := inlineBytes_head v hvv
+    have hv0 := at_head h3 hvb
+    obtain ⟨nb1, nb2, nb3, _⟩ := (notBlank_iff vb).mp hvnb
+    have hsb2 : skipBlank s (p + n.length + 1) = p + n.length + 2 := by
+      rw [skipBlank_space s _ h2.2.1]
+      exact skipBlank_at_byte s _ vb (by simpa [Nat.add_assoc] using hv0) nb1 nb2 nb3
+    have e3 : p + (n.length + (0 + 1 + 1)) = p + n.length + 2 := by omega
+    have e4 : p + (n.length + (0 + 1 + 1) + (inlineBytes v).length) = p + n.length + 2 + (inlineBytes v).length := by
+      omega
+    rw [e3] at h3 hv0
+    rw [e4] at h4
+    -- where the loop restarts
+    obtain ⟨q', hnext, hat', hfolv, hsbv, hlen⟩ : ∃ q',
+        skipBlank s (takeByteIf s (skipBlank s (p + n.length + 2 + (inlineBytes v).length)) 44).fst = q' ∧
+        At s q' (namedTail xs) ∧ Follow s (p + n.length + 2 + (inlineBytes v).length) ∧
+        skipBlank s (p + n.length + 2 + (inlineBytes v).length) = p + n.length + 2 + (inlineBytes v).length ∧
+        q' + (namedTail xs).length = p + (namedTail ((n, v) :: xs)).length := by
+      cases xs with
+      | nil =>
+        simp only [List.isEmpty_nil, if_true, List.length_nil, Nat.add_zero, namedTail, at_cons] at h5
+        rw [e4] at h5
+        refine ⟨_, nextPos_close s _ h5.1, by simp [namedTail, at_cons, h5.1],
+          (follow_of_byte 41 h5.1 (by decide)).1, (follow_of_byte 41 h5.1 (by decide)).2, ?_⟩
+        simp [namedTail]; omega
+      | cons y ys =>
+        simp only [List.isEmpty_cons, Bool.false_eq_true, if_false, at_cons, List.length_cons, List.length_nil] at h4 h5
+        obtain ⟨yb, hyb, y1, y2, y3, _⟩ := namedTail_head (y :: ys) hxs
+        have e5 : p + (n.length + (0 + 1 + 1) + (inlineBytes v).length + (0 + 1 + 1)) =
+            p + n.length + 2 + (inlineBytes v).length + 2 := by omega
+        rw [e5] at h5
+        refine ⟨_, nextPos_comma s _ yb h4.1 h4.2.1 (at_head h5 hyb) ⟨y1, y2, y3⟩, h5,
+          (follow_of_byte 44 h4.1 (by decide)).1, (follow_of_byte 44 h4.1 (by decide)).2, ?_⟩
+        have : namedTail ((n, v) :: y :: ys) = n ++ [58, 32] ++ inlineBytes v ++ [44, 32] ++ namedTail (y :: ys) := by
+          rw [namedTail]; rfl
+        rw [this]
+        simp; omega
+    have hstopv := hfolv.num
+    -- the value: a literal, or (on a letter `only_literal` is not looked at) a reference / a call
+    have viaFalse : (∃ c rest, inlineBytes v = c :: rest ∧ isAlpha c = true) →
+        (∃ v', getInline s (k + 2) false (p + n.length + 2) =
+            .ok v' (endPos v s (p + n.length + 2 + (inlineBytes v).length)) ∧ v'.mapS (spanBytes s) = v) →
+        ∃ v', getInline s (k + 1 + 1) true (p + n.length + 2) = .ok v' (p + n.length + 2 + (inlineBytes v).length) ∧
+          v'.mapS (spanBytes s) = v := by
+      intro ⟨c, rest, hc, hca⟩ ⟨v', ev, rv⟩
+      have hc0 : s[p + n.length + 2]? = some c := by rw [hc, at_cons] at h3; exact h3.1
+      rw [endPos_stay v s _ hsbv] at ev
+      exact ⟨v', by rw [getInline_ol_alpha s (k + 1) _ c hc0 hca]; exact ev, rv⟩
+    obtain ⟨v', ev, rv⟩ : ∃ v', getInline s (k + 1 + 1) true (p + n.length + 2) =
+        .ok v' (p + n.length + 2 + (inlineBytes v).length) ∧ v'.mapS (spanBytes s) = v := by
+      cases v with
+      | str b => exact getInline_literal hs (.str b) rfl hvv (p + n.length + 2) (k + 1) true h3 hstopv
+      | num b => exact getInline_literal hs (.num b) rfl hvv (p + n.length + 2) (k + 1) true h3 hstopv
+      | msg id attr =>
+        refine viaFalse ?_ (getInline_bytes hs (.msg id attr) hvv (p + n.length + 2) (k + 2) h3 hfolv hkv)
+        simp only [validInline, Bool.and_eq_true] at hvv
+        obtain ⟨c, rest, hidc, hc, _⟩ := validIdent_head hvv.1
+        exact ⟨c, rest ++ attrBytes attr, by simp [inlineBytes, hidc], hc⟩
+      | fn id pos nm =>
+        refine viaFalse ?_ (getInline_bytes hs (.fn id pos nm) hvv (p + n.length + 2) (k + 2) h3 hfolv hkv)
+        simp only [validInline, Bool.and_eq_true] at hvv
+        obtain ⟨c, rest, hidc, hc, _⟩ := validIdent_head hvv.1.1.1.1
+        exact ⟨c, _, by simp only [inlineBytes, hidc, List.cons_append]; rfl, hc⟩
+      | var id => simp [isNamedValue] at hl
+      | term a b c => simp [isNamedValue] at hl
+      | placeable e => simp [isNamedValue] at hl
+    have hdup : (named0.any fun na => spanBytes s na.fst == spanBytes s ⟨p, p + n.length⟩) = false := by
+      rw [at_spanBytes h1, List.any_eq_false]
+      intro na hna heq
+      apply hdis n (by simp)
+      simp only [accNames, List.mem_map]
+      exact ⟨na, hna, by simpa using heq⟩
+    obtain ⟨named', eih, rih⟩ := getCallArgsLoop_named hs xs hxs hnd.2 q' (k + 2) pos0
+      (named0 ++ [(⟨p, p + n.length⟩, v')]) hat' hkxs (by
+        intro m hm
+        simp only [accNames, List.map_append, List.map_cons, List.map_nil, List.mem_append, List.mem_singleton,
+          at_spanBytes h1, not_or]
+        refine ⟨hdis m (by simp [hm]), ?_⟩
+        intro hmn; subst hmn
+        exact hnd.1 (by simpa using hm))
+    refine ⟨(⟨p, p + n.length⟩, v') :: named', ?_, ?_⟩
+    · rw [getCallArgsLoop]
+      have hc41 : isCurrentByte s p 41 = false := by simp [isCurrentByte, hp0, hb41]
+      have hc58 : isCurrentByte s (p + n.length) 58 = true := by simp [isCurrentByte, h2.1]
+      rw [hsbv] at hnext
+      simp only [get_lt hp0, if_true, hc41, Bool.false_eq_true, if_false, e1, hsb, hc58, hdup, hsb2, ev, hsbv, hnext, eih]
+      simp only [List.append_assoc, List.singleton_append]
+      congr 1
+      omega
+    · simp [mapNamed, rv, rih, at_spanBytes h1]
 
 end
 
